@@ -7,6 +7,7 @@ import FlVerif.Lemmas.CodeRule
 import FlVerif.Lemmas.CodeLoad
 import FlVerif.Lemmas.CodeSession
 import FlVerif.Lemmas.CodeFllImportReject
+import FlVerif.Lemmas.CodeRaisedLoad
 
 /-! # C16 — Malformed rule text is rejected cleanly, never accepted
 
@@ -31,6 +32,21 @@ theorem code_ruleParse (text : String) :
     | .ok p => ∃ σ, Gen.Code.Rule_parse.run text {} = .ok σ ∧ σ.self_antecedent_text = " ".intercalate p.ante ∧
         σ.self_consequent_text = " ".intercalate p.cons ∧ σ.self_weight = p.weight :=
   Op.code_ruleParse text
+
+/-- **Tie A, the state at a raise: a rejected text leaves the rule as it was.**  `Gen.Code.Rule_parse_rs` is the same
+    source translated with `raise_state` (an exception carries the record of the locals as it is at the raise; same
+    profile and externals; `a0`, `c0`, `w0` are `antecedent.text`, `consequent.text` and `weight` of the rule before the
+    call).  For every text: when the translated function raises, the record at the raise still has `a0`, `c0`, `w0`
+    (the source assigns the three attributes in its last three statements, after every check), and the plain
+    translation - which `code_ruleParse` ties to `Op.ruleParse` - raises the same class; on success both translations
+    assign the same texts and weight. -/
+theorem code_ruleParse_raise_unchanged (text a0 c0 : String) (w0 : X Rat) :
+    match Gen.Code.Rule_parse_rs.run text a0 c0 w0 {} with
+    | .error (err, σ) => (σ.self_antecedent_text = a0 ∧ σ.self_consequent_text = c0 ∧ σ.self_weight = w0) ∧
+        Gen.Code.Rule_parse.run text {} = .error err
+    | .ok σ => ∃ σ', Gen.Code.Rule_parse.run text {} = .ok σ' ∧ σ.self_antecedent_text = σ'.self_antecedent_text ∧
+        σ.self_consequent_text = σ'.self_consequent_text ∧ σ.self_weight = σ'.self_weight :=
+  Op.code_ruleParse_raise_unchanged text a0 c0 w0
 
 /-- **`Rule.parse` accepts exactly** `if A… then C… [with w]` with a non-empty antecedent (up to the first `then`),
     a non-empty consequent (up to the first `with`), a weight that is the text of a number and nothing after it – and
@@ -143,6 +159,66 @@ theorem code_consequentLoad (e : EngineInfo) (text : String) :
     | .ok cs => ∃ σ, Gen.Code.Consequent_load.run e text {} = .ok σ ∧ σ.self_conclusions.map propConc = cs ∧
         ∀ p ∈ σ.self_conclusions, e.findOut p.variable_.name = some p.variable_ :=
   Op.code_consequentLoad e text
+
+/-- **Tie A, the state at a raise: a failing `Consequent.load` leaves the consequent unloaded.**
+    `Gen.Code.Consequent_load_rs` is the same source translated with `raise_state` (`fv/pylean.py`: combined with the
+    alias of the proposition appended last; `loaded0` is what `self.conclusions` holds before the call).  For every
+    engine and text: when the translated function raises, the record at the raise has `self.conclusions = []` - the
+    function starts with `self.unload()` and assigns only in its last statement - and the plain translation, which
+    `code_consequentLoad` ties to `Op.consequentLoad`, raises the same class; on success both assign the same list. -/
+theorem code_consequentLoad_raise_unloaded (e : EngineInfo) (text : String) (loaded0 : List Py.Load.Proposition) :
+    match Gen.Code.Consequent_load_rs.run e text loaded0 {} with
+    | .error (err, σ) => σ.self_conclusions = [] ∧ Gen.Code.Consequent_load.run e text {} = .error err
+    | .ok σ => ∃ σ', Gen.Code.Consequent_load.run e text {} = .ok σ' ∧ σ.self_conclusions = σ'.self_conclusions :=
+  Op.code_consequentLoad_raise_unloaded e text loaded0
+
+/-- **Tie A, the state at a raise: a failing `Antecedent.load` leaves the antecedent unloaded.**
+    `Gen.Code.Antecedent_load_rs` is the source of `Antecedent.load` translated with `raise_state` (`loaded0`: what
+    `self.expression` holds before the call; `post`: the callee `Function.infix_to_postfix`, whose exceptions pass
+    through).  When the translated function raises, the record at the raise has `self.expression = None`, and the plain
+    translation, which `C06.code_antecedentLoad` ties to `Op.antecedentLoadPostfix`, raises the same class; on success
+    both assign the same expression. -/
+theorem code_antecedentLoad_raise_unloaded (e : EngineInfo) (post : String → Py.M String) (text : String)
+    (loaded0 : Py.Load.Expression) :
+    match Gen.Code.Antecedent_load_rs.run e post text loaded0 {} with
+    | .error (err, σ) => σ.self_expression = Py.Load.Expression.none ∧
+        Gen.Code.Antecedent_load.run e post text {} = .error err
+    | .ok σ => ∃ σ', Gen.Code.Antecedent_load.run e post text {} = .ok σ' ∧ σ.self_expression = σ'.self_expression :=
+  Op.code_antecedentLoad_raise_unloaded e post text loaded0
+
+/-- **The external `Py.Sess.consLoad`** - the call `self.consequent.load(engine)` inside the translated `Rule.load`
+    (`code_ruleLoad` below), which *states* that a failing call leaves `conclusions = []` - **is the translated
+    `Consequent.load`, including that clause**: the external returns the rule with the conclusions the translated
+    function assigns; when it raises, the translated function raises the same class and the record at the raise holds
+    the (empty) conclusions the external puts into the rule; nothing else of the rule changes. -/
+theorem consLoad_external_is_code (e : EngineInfo) (r : Py.Sess.RuleObj) (loaded0 : List Py.Load.Proposition) :
+    match Py.Sess.consLoad e r with
+    | .ok r' => ∃ σ, Gen.Code.Consequent_load_rs.run e (joinWords r.parsed.cons) loaded0 {} = .ok σ ∧
+        σ.self_conclusions.map propConc = r'.cons ∧ r' = { r with cons := r'.cons }
+    | .error (err, r') => ∃ σ, Gen.Code.Consequent_load_rs.run e (joinWords r.parsed.cons) loaded0 {} = .error (err, σ) ∧
+        σ.self_conclusions.map propConc = r'.cons ∧ r' = { r with cons := [] } :=
+  Op.consLoad_external_is_code e r loaded0
+
+/-- **The external `Py.Sess.anteLoad`** - the call `self.antecedent.load(engine)` inside the translated `Rule.load`,
+    which *states* that a failing call leaves `expression = None` - **is the translated `Antecedent.load`, including that
+    clause**, for every callee `post` (`Function.infix_to_postfix`) that behaves like its model `Op.toPostfix` (it raises
+    the class the model predicts and otherwise returns a text whose words are the model's postfix tokens; the
+    translated `infix_to_postfix` is tied to that model by `C17.code_toPostfix`): the external returns the rule with
+    the tree the translated function assigns; when it raises, the translated function raises the same class and the
+    record at the raise has `self.expression = None`; nothing else of the rule changes.  (`_partial`: the hypothesis on
+    `post` is not discharged here for the translated `infix_to_postfix`; that needs `C17.code_toPostfix` under `NoPunct`
+    and `Py.split (Py.joinSp p) = p` for postfix tokens.) -/
+theorem anteLoad_external_is_code_partial (tbl : Table) (e : EngineInfo) (r : Py.Sess.RuleObj) (loaded0 : Py.Load.Expression)
+    (post : String → Py.M String)
+    (hp : ∀ text, match toPostfix tbl (formatInfix tbl text) with
+      | .error k => post text = .error k.toPy
+      | .ok p => ∃ s, post text = .ok s ∧ Py.split s = p) :
+    match Py.Sess.anteLoad tbl e r with
+    | .ok r' => ∃ σ, Gen.Code.Antecedent_load_rs.run e post (joinWords r.parsed.ante) loaded0 {} = .ok σ ∧
+        exprA σ.self_expression = r'.ante ∧ r' = { r with ante := r'.ante }
+    | .error (err, r') => ∃ σ, Gen.Code.Antecedent_load_rs.run e post (joinWords r.parsed.ante) loaded0 {} = .error (err, σ) ∧
+        exprA σ.self_expression = r'.ante ∧ r' = { r with ante := none } :=
+  Op.anteLoad_external_is_code tbl e r loaded0 post hp
 
 /-- **`Consequent.load` accepts exactly** a non-empty list of conclusions `v is h* t` joined by `and`, where `v` is an
     output variable of the engine, the `h` are registered hedges and `t` is a term of `v` – and returns exactly those
